@@ -127,6 +127,9 @@ func checkC04(ci interface{}, st *Stats) error {
 		}
 		return nil
 	}
+	if hasKind(g, KSuppress) {
+		st.Class("grammar with SuppressError")
+	}
 	st.Class("accepted")
 	if node.Pos() != 1 || int(node.ReaderPos()) != 1+len(in) {
 		return fmt.Errorf("root spans %d..%d, want 0..%d", int(node.Pos())-1, int(node.ReaderPos())-1, len(in))
@@ -184,6 +187,7 @@ func init() {
 		Gen: func(t *rapid.T) interface{} {
 			o := genOptsC01()
 			o.Names = rapid.Bool().Draw(t, "names")
+			o.Suppress = rapid.IntRange(0, 3).Draw(t, "suppress") == 0
 			if rapid.IntRange(0, 4).Draw(t, "extramemo") == 0 {
 				o.ExtraMemo = 4
 			}
